@@ -44,6 +44,7 @@ class Result:
         self.violation_counts = collections.Counter()
         self._samples = []  # (rank, case)
         self.errors = []  # harness errors (never verdicts)
+        self.succ = []  # explicit-state search: (canonical key, history reaching it, expandable) of successors
 
     # -- recording ---------------------------------------------------------------------
     def violation(self, clause, sig, case, expected=None, observed=None, size=None, note=''):
@@ -101,6 +102,7 @@ class Result:
         self.violation_counts.update(o.violation_counts)
         self._samples = sorted(self._samples + o._samples, key=lambda t: t[0])[: self.SAMPLES]
         self.errors.extend(o.errors[: 50 - len(self.errors)])
+        self.succ.extend(o.succ)
         return self
 
     @property
